@@ -223,14 +223,17 @@ example :
     in the first pass stay dropped and prefix choices are stable.
 
     Full statement (`ser_idempotent`): `ser (parse (ser s)) = ser s` for every
-    parsed document and every builder stream.  Missing here: (a) builder
-    streams, where the first pass invents declarations that the second pass
-    meets as explicit ones (outside `idemOK`; the oracle checks them on the real
-    code); (b) the step from the text to the token list is
-    `tokenizer_inverts_serializer` (the two line breaks of the prolog are white
-    space outside the root element, which a parser does not report);
-    (c) `reparseX` is compared with the real parser by the correspondence
-    stream `reparse`, not derived from a model of expat. -/
+    parsed document and every builder stream.  Builder streams (where the first
+    pass invents declarations that the second pass meets as explicit ones) are
+    `ser_idempotent_builder_events` / `ser_idempotent_builder` below; the text
+    level for this class is `ser_idempotent_parsed_text`.  Missing: (a) parsed
+    documents outside `idemOK` — a default-namespace declaration dropped in
+    favour of a prefix that is shadowed later, so that the flattener makes up a
+    declaration inside a parsed stream (≈ 0.3 % of the generated documents; the
+    oracle checks them on the real code, the driver on the model);
+    `mixed_stream_not_idempotent` shows that mixing the two shapes freely is
+    not idempotent; (b) `reparseX` is compared with the real parser by the
+    correspondence stream `reparse`, not derived from a model of expat. -/
 theorem ser_idempotent_partial (pref : List (Str × Str)) (hpref : prefOK pref = true) (s : Stream)
     (h1 : docOK (emptyTag s) = true) (h2 : idemOK pref (emptyTag s) = true) :
     ∃ xs2, reparseX PSt.init ((flatten pref (emptyTag s)).map normF) = some xs2 ∧
